@@ -198,7 +198,8 @@ def class_parser():
     p = ArgumentParser(exit_on_error=False)
     p.add_argument("--cfg", action=ActionConfigFile)
     p.add_argument("--m", type=zoo.Base)
-    p.add_argument("--lz", type=zoo.Base, default=lazy_instance(zoo.SubA, a=3))
+    p._vf_lazy = lazy_instance(zoo.SubA, a=3)
+    p.add_argument("--lz", type=zoo.Base, default=p._vf_lazy)
     p.add_argument("--ms", type=List[zoo.Base])
     p.add_argument("--dm", type=Dict[str, zoo.Base])
     p.add_argument("--holder", type=zoo.Holder)
@@ -292,6 +293,32 @@ def case_classes(ctx, i, rng):
         return
     if len(i1) != len(i2):
         ctx.violation("freshness", "number-of-instances-differs-between-two-calls", dict(w, first=len(i1), second=len(i2)))
+        return
+    if i % 3 == 0:
+        # the lazy default instance gets used by the program (first method call initialises it): parsing and instantiating
+        # afterwards still work from the recorded spec, never from that live object
+        lazy = p._vf_lazy
+        d0 = call(p.get_defaults)
+        od = call(lazy.describe)
+        ctx.count("mon.lazy_default_instance_used")
+        d1 = call(p.get_defaults)
+        if not (od.accepted and d0.accepted and d1.accepted):
+            ctx.violation("freshness", "lazy-default-use-or-get_defaults-failed", dict(w, use=od.brief(), before=d0.brief(), after=d1.brief()))
+            return
+        from vf.util import same
+
+        d = same(d0.value.as_dict(), d1.value.as_dict())
+        if d:
+            ctx.violation("freshness", "defaults-changed-by-using-the-lazy-default-instance", dict(w, at=d[0], why=d[1]))
+            return
+        o3 = call(p.parse_object, copy.deepcopy(obj))
+        d = same(cfg.as_dict(), o3.value.as_dict()) if o3.accepted else ("", o3.brief())
+        if d:
+            ctx.violation("freshness", "parse-differs-after-using-the-lazy-default-instance", dict(w, at=d[0], why=d[1]))
+            return
+        o4 = call(p.instantiate_classes, o3.value)
+        if o4.accepted and id(lazy) in instances(o4.value):
+            ctx.violation("freshness", "live-default-instance-handed-out-by-instantiate_classes", dict(w))
 
 
 def case_cwd(ctx, i, rng):
